@@ -965,3 +965,44 @@ def r_flip_sequential(cx):
                   "the earlier exchanges left it): with a repeated index, e.g. `flip=3,3`, one value is duplicated on the "
                   "stack and another is lost", cx.where(s.get("span")))
     cx.count("R-FLIP-SEQUENTIAL", "stack_stores", n)
+
+
+@rule("R-STACK-COUNT", ["C10", "C12"])
+def r_stack_count(cx):
+    """A step reports how many tuples it handled. The stack sub-commands that move no tuple data (swap) report the number
+    of tuples the stack holds values for - the length of a column - never the depth of the stack: with `stack.len()` a
+    pipeline of two pushed elements applied to seven tuples reports 2 successes although all seven came through."""
+    import elems as E
+    n = 0
+    for fn in ("inner_op::stack::stack_fwd", "inner_op::stack::stack_inv"):
+        if not cx.f.has_fn(fn):
+            cx.ob("R-STACK-COUNT", "%s/anchor" % fn, False, "anchor-missing: %s" % fn)
+            continue
+        f = cx.f.fn(fn)
+        rt = E.return_term(f)
+        leaves = []
+
+        def collect(t, d=0):
+            t = mir.strip_refs(t)
+            if t[0] == "phi" and d < 8:
+                for o in t[2]:
+                    collect(o, d + 1)
+            else:
+                leaves.append(t)
+        if rt is not None:
+            collect(rt)
+        depth = []
+        for t in leaves:
+            if t[0] == "call" and isinstance(t[1], str) and t[1].endswith("::len") and t[2]:
+                a = mir.strip_refs(t[2][0])
+                while a[0] == "proj" and a[2] == "deref":
+                    a = mir.strip_refs(a[1])
+                if a == ("arg", 1):
+                    depth.append(t)
+        n += 1
+        cx.ob("R-STACK-COUNT", fn.rsplit("::", 1)[-1], not depth,
+              "%s never reports the depth of the stack as its number of successes (%d results examined)" % (fn, len(leaves))
+              if not depth else
+              "%s returns the depth of the stack (`stack.len()`) as the number of tuples handled: the pipeline's count becomes "
+              "the number of stack elements" % fn, cx.where(f.d["span"]))
+    cx.count("R-STACK-COUNT", "dispatchers", n)
